@@ -248,7 +248,7 @@ def p3(cx):
         n += 1
         for meth in ('next', 'error', 'complete'):
             fn = cx.method(im, meth)
-            g = cx.graph(fn['key'])
+            g = cx.graph(fn['key'], forward=True)
             label = cx.label(fn)
             bad = None
             for x in g.nodes:
